@@ -11,7 +11,7 @@ import time
 
 ROOT = os.path.dirname(os.path.dirname(os.path.abspath(__file__)))
 REPO = os.environ.get("SV_REPO", "/repo")
-TARGET = os.path.join(ROOT, "target")
+TARGET = os.environ.get("SV_TARGET", os.path.join(ROOT, "target"))
 SV = os.path.join(TARGET, "harness", "release", "sv")
 CLI_BIN = os.path.join(TARGET, "cli", "release", "stylua")
 FEATURES = "verif,luau,lua54,luajit"
@@ -348,6 +348,21 @@ def run_check(prop, tier, seed, t0):
         m = run_workers(prop, tier, seed)
         level, rule = LIB_META[prop]
         return finish(prop, tier, seed, t0, level, m, rule, COMMON_ASSUMPTIONS)
+    if prop in CLI_PROPS:
+        # CLI monitors: Python modules cli/cNN.py with META, run(tier, seed) and replay(case)
+        import importlib
+        try:
+            mod = importlib.import_module(prop.lower())
+        except ModuleNotFoundError:
+            raise HarnessError(f"no check registered for {prop}")
+        build_harness()
+        build_cli()
+        m = mod.run(tier, seed)
+        meta = mod.META
+        if isinstance(m.get("nontrivial"), list):
+            m["nontrivial"] = set(m["nontrivial"])
+        return finish(prop, tier, seed, t0, meta["level"], m, meta["rule"], meta.get("assumptions", []) + COMMON_ASSUMPTIONS[1:],
+                      extra_cov=m.get("extra_coverage"))
     raise HarnessError(f"no check registered for {prop}")
 
 
@@ -358,4 +373,12 @@ def replay(path):
         build_harness()
         p = subprocess.run([SV, "replay", path], env=dict(os.environ, SV_REPO=REPO))
         return p.returncode
+    if prop in CLI_PROPS:
+        import importlib
+        mod = importlib.import_module(prop.lower())
+        build_harness()
+        build_cli()
+        findings = mod.replay(v["case"])
+        print(json.dumps({"findings": findings}, indent=1, default=str))
+        return 1 if findings else 0
     raise HarnessError(f"cannot replay {path}")
